@@ -129,10 +129,13 @@ def check_call(contract, args: dict, repo=None, quiet=True) -> RTResult:
         try:
             if "self" in call_args:
                 slf = call_args.pop("self")
-                out = getattr(slf, contract.qualname.split(".")[-1])(**call_args)
+                bound = getattr(slf, contract.qualname.split(".")[-1])
+                pa, kw = _split_args(bound, call_args)
+                out = bound(*pa, **kw)
                 call_args["self"] = slf
             else:
-                out = fn(**call_args)
+                pa, kw = _split_args(fn, call_args)
+                out = fn(*pa, **kw)
         except Exception as e:  # noqa: BLE001
             exc = e
     if exc is not None:
@@ -185,6 +188,23 @@ def check_call(contract, args: dict, repo=None, quiet=True) -> RTResult:
             res.clause = lab
             return res
     return res
+
+
+def _split_args(fn, named):
+    """positional-only / positional parameters are passed by position, the rest by keyword"""
+    import inspect
+
+    try:
+        sig = inspect.signature(fn)
+    except (TypeError, ValueError):
+        return [], dict(named)
+    pos, kw = [], dict(named)
+    for p in sig.parameters.values():
+        if p.kind in (p.POSITIONAL_ONLY, p.POSITIONAL_OR_KEYWORD) and p.name in kw:
+            pos.append(kw.pop(p.name))
+        elif p.kind in (p.POSITIONAL_ONLY, p.POSITIONAL_OR_KEYWORD):
+            break
+    return pos, kw
 
 
 class _DictView:
